@@ -131,6 +131,7 @@ pub fn run(scn: &str, out: &mut dyn Write) {
             255 => U255, 256 => U256, 257 => Sum<U256, U1>, 511 => U511, 512 => U512, 1000 => U1000,
             1023 => U1023, 1024 => U1024, 1025 => Sum<U1024, U1>, 2047 => U2047, 2048 => U2048, 2049 => Sum<U2048, U1>,
             3000 => Prod<U1000, U3>, 3072 => Prod<U1024, U3>, 3073 => Sum<Prod<U1024, U3>, U1>, 4096 => U4096, 5000 => Prod<U1000, U5>,
+            1536 => Sum<U1024, U512>, 6144 => Prod<U2048, U3>, 8192 => U8192, 10000 => U10000,
             131072 => U131072, 1048576 => U1048576);
     }
     writeln!(out, "{{\"ev\":\"case_end\"}}").unwrap();
